@@ -102,19 +102,23 @@ def setCrit (v : HVal) (old : List String) : Option (List String) :=
       | _, _ => none) (some [])
   | _ => none
 
-/-- `json.Unmarshal(raw, &jwsProtectedHeader)` over the member list (exact names; a case-folded
-    twin of a defined name is refused by `parseProtectedHeaders` after the F1 repair) -/
+/-- decoding one member into the `jwsProtectedHeader` struct (exact names; a case-folded twin of a
+    defined name is refused by `parseProtectedHeaders` after the F1 repair).  `none` = the value has
+    the wrong JSON type for the field, or a time string does not parse. -/
+def step (h : Hdr) (m : Member) : Option Hdr :=
+  if m.key == kAlg then (setString m.val h.alg).map fun s => { h with alg := s }
+  else if m.key == kCty then (setString m.val h.cty).map fun s => { h with cty := s }
+  else if m.key == kScheme then (setString m.val h.scheme).map fun s => { h with scheme := s }
+  else if m.key == kCrit then (setCrit m.val h.crit).map fun c => { h with crit := c }
+  else if m.key == kExpiry then (setTime m.val).map fun t => { h with expiry := t }
+  else if m.key == kSigningTime then (setTime m.val).map fun t => { h with signingTime := t }
+  else if m.key == kAuthSigningTime then (setTime m.val).map fun t => { h with authSigningTime := t }
+  else some h
+
+/-- `json.Unmarshal(raw, &jwsProtectedHeader)` over the member list, in document order -/
 def decodeHdr : List Member → Hdr → Option Hdr
   | [], h => some h
-  | m :: ms, h =>
-    if m.key == kAlg then (setString m.val h.alg).bind fun s => decodeHdr ms { h with alg := s }
-    else if m.key == kCty then (setString m.val h.cty).bind fun s => decodeHdr ms { h with cty := s }
-    else if m.key == kScheme then (setString m.val h.scheme).bind fun s => decodeHdr ms { h with scheme := s }
-    else if m.key == kCrit then (setCrit m.val h.crit).bind fun c => decodeHdr ms { h with crit := c }
-    else if m.key == kExpiry then (setTime m.val).bind fun t => decodeHdr ms { h with expiry := t }
-    else if m.key == kSigningTime then (setTime m.val).bind fun t => decodeHdr ms { h with signingTime := t }
-    else if m.key == kAuthSigningTime then (setTime m.val).bind fun t => decodeHdr ms { h with authSigningTime := t }
-    else decodeHdr ms h
+  | m :: ms, h => (step h m).bind (decodeHdr ms)
 
 /-- the second decode, into `map[string]interface{}`, after deleting the defined names: for each
     non-defined key the *last* member with that key -/
@@ -152,33 +156,43 @@ def critOK (h : Hdr) (ext : List Member) : Bool :=
   | some [] => true
   | _ => false
 
+def membersOf (p : ProtHdr) : Option (List Member) :=
+  match p with
+  | .bad => none
+  | .jnull => some []
+  | .obj ms => some ms
+
+/-- checks of `parseProtectedHeaders`, `payload()` and `validateProtectedHeaders` -/
+def gates1 (e : Env) (ms : List Member) (h : Hdr) : Bool :=
+  !(ms.any (fun m => m.foldTwinOf.isSome)) && e.payloadB64ok && schemeOK h && critOK h (extMembers ms)
+
+/-- checks of `signerInfo()` after the headers are populated -/
+def gates2 (e : Env) : Bool :=
+  e.sigB64ok && e.sigLen != 0 && !(e.x5c.any (·.isNone))
+
+def signingTimeOf (h : Hdr) : Time :=
+  if h.scheme == schemeX509 then h.signingTime.getD zeroT else h.authSigningTime.getD zeroT
+
+def extAttrsOf (ms : List Member) (h : Hdr) : List Attr :=
+  (extMembers ms).map (fun m => { key := .text m.key, critical := h.crit.contains m.key, value := m.decoded })
+
+def contentOf (e : Env) (ms : List Member) (h : Hdr) (alg : Nat) : Content :=
+  { payload := e.payload, payloadLen := e.payloadLen, cty := h.cty, scheme := h.scheme,
+    signingTime := signingTimeOf h, expiry := h.expiry.getD zeroT, extAttrs := extAttrsOf ms h,
+    alg := alg, chain := e.x5c.filterMap id, sigLen := e.sigLen, agent := e.agent, tst := e.tst }
+
 /-- `envelope.Content()` of the JWS envelope -/
 def content (e : Env) : Out Content :=
-  match (match e.prot with | .bad => none | .jnull => some [] | .obj ms => some ms) with
+  match membersOf e.prot with
   | none => .err .invalidSignature
   | some ms =>
     match decodeHdr ms {} with
     | none => .err .invalidSignature
     | some h =>
-      if ms.any (fun m => m.foldTwinOf.isSome) then .err .invalidSignature
-      else
-        let ext := extMembers ms
-        if !e.payloadB64ok then .err .invalidSignature
-        else if !schemeOK h then .err .invalidSignature
-        else if !critOK h ext then .err .invalidSignature
-        else match jwsAlgOfName h.alg with
-          | none => .err .unsupportedAlgo
-          | some alg =>
-            let signingTime :=
-              if h.scheme == schemeX509 then h.signingTime.getD zeroT else h.authSigningTime.getD zeroT
-            if !e.sigB64ok then .err .invalidSignature
-            else if e.sigLen == 0 then .err .invalidSignature
-            else if e.x5c.any (·.isNone) then .err .invalidSignature
-            else
-              .val { payload := e.payload, payloadLen := e.payloadLen, cty := h.cty, scheme := h.scheme,
-                     signingTime := signingTime, expiry := h.expiry.getD zeroT,
-                     extAttrs := ext.map (fun m => { key := .text m.key, critical := h.crit.contains m.key, value := m.decoded }),
-                     alg := alg, chain := e.x5c.filterMap id, sigLen := e.sigLen, agent := e.agent, tst := e.tst }
+      if !gates1 e ms h then .err .invalidSignature
+      else match jwsAlgOfName h.alg with
+        | none => .err .unsupportedAlgo
+        | some alg => if !gates2 e then .err .invalidSignature else .val (contentOf e ms h alg)
 
 /-- the value of the `alg` member as golang-jwt sees it: exact name, last duplicate, a string -/
 def jwtAlg (ms : List Member) : Option String :=
